@@ -325,6 +325,15 @@ func genUpdateCases(r *rand.Rand, tier string, prop string) []Case {
 			newRe = pick(r, []string{"id:" + tg.id, "x id:" + other.id + ",y", "\\bid:" + tg.id + "\\b|SecRule"})
 		}
 		k := bytes.Repeat([]byte{'x'}, tg.chain)
+		if prop == "C12" && i%12 == 7 && tg.chain == 0 && i >= nCli {
+			// an earlier rule whose id merely begins with the addressed id (a seven-digit id): update and compare look
+			// the rule up the same way, so what update wrote is what compare reads — whichever rule that is
+			nl := "\n"
+			if strings.Contains(rf.content, "\r\n") {
+				nl = "\r\n"
+			}
+			rf.content = "SecRule ARGS \"@rx longer\" \\" + nl + "    \"id:" + tg.id + pick(r, []string{"1", "0", "99"}) + ",\\" + nl + "    phase:2\"" + nl + nl + rf.content
+		}
 		base := [][]byte{[]byte(rf.content), []byte(tg.id), k, []byte(newRe)}
 		c := Case{Kind: "rules-file", Ops: []Op{{"update.apply", base}, {"update.read", base[0:3]}}}
 		if prop == "C11" {
